@@ -298,6 +298,8 @@ def _signed(rng, shape):
         return _structured(rng, shape)
     m = gens.reals(rng, shape, -3, 3, special=False)
     m[np.array([[rng.random() < 0.3 for _ in range(shape[1])] for _ in range(shape[0])], dtype=bool).reshape(shape)] = 0.0
+    # entries of 1e-18 are as non-zero as entries of order one (the operator is linear): magnitudes 2^-60, 2^-90, 2^40
+    m = m * (1.0 if rng.random() < 0.75 else float(rng.choice([2.0 ** -60, 2.0 ** -90, 2.0 ** 40])))
     return np.abs(m) if rng.random() < 0.2 else m
 
 
